@@ -529,12 +529,15 @@ func genKernels(h *H, prefixes ...string) {
 						if name == "Field_IsGtOrEqPrimeMinusOrder" && h.rng.Intn(2) == 0 {
 							pmn := []uint64{0x03c9baee, 0x03685c8b, 0x01fc4402, 0x006542dd, 0x01455123, 0, 0, 0, 0, 0}
 							objs[i] = append([]uint64{}, pmn...)
-							j := h.rng.Intn(5)
-							switch h.rng.Intn(3) {
-							case 0:
-								objs[i][j]++
-							case 1:
-								objs[i][j]--
+							for j := 0; j < 5; j++ { // several limbs perturbed independently
+								switch h.rng.Intn(6) {
+								case 0:
+									objs[i][j]++
+								case 1:
+									objs[i][j]--
+								case 2:
+									objs[i][j] = uint64(h.rng.Intn(1 << 26))
+								}
 							}
 						}
 						if name == "Field_Equals" && i == 1 && h.rng.Intn(2) == 0 {
@@ -555,15 +558,23 @@ func genKernels(h *H, prefixes ...string) {
 							objs[i][h.rng.Intn(8)] ^= 1 << uint(h.rng.Intn(32))
 						}
 					}
-					if name == "Scalar_IsOverHalfOrder" && h.rng.Intn(2) == 0 {
-						half := []uint64{0x681b20a0, 0xdfe92f46, 0x57a4501d, 0x5d576e73, 0xffffffff, 0xffffffff, 0xffffffff, 0x7fffffff}
-						objs[i] = append([]uint64{}, half...)
-						j := h.rng.Intn(8)
-						switch h.rng.Intn(3) {
-						case 0:
-							objs[i][j] = (objs[i][j] + 1) & 0xffffffff
-						case 1:
-							objs[i][j] = (objs[i][j] - 1) & 0xffffffff
+					if (name == "Scalar_IsOverHalfOrder" || name == "Scalar_overflows") && h.rng.Intn(2) == 0 {
+						// the comparison constant with SEVERAL words perturbed independently (a dropped or duplicated
+						// word of a lexicographic compare chain only shows when a lower word then decides)
+						ref := []uint64{0x681b20a0, 0xdfe92f46, 0x57a4501d, 0x5d576e73, 0xffffffff, 0xffffffff, 0xffffffff, 0x7fffffff}
+						if name == "Scalar_overflows" {
+							ref = []uint64{0xd0364141, 0xbfd25e8c, 0xaf48a03b, 0xbaaedce6, 0xfffffffe, 0xffffffff, 0xffffffff, 0xffffffff}
+						}
+						objs[i] = append([]uint64{}, ref...)
+						for j := range objs[i] {
+							switch h.rng.Intn(8) {
+							case 0:
+								objs[i][j] = (objs[i][j] + 1) & 0xffffffff
+							case 1:
+								objs[i][j] = (objs[i][j] - 1) & 0xffffffff
+							case 2:
+								objs[i][j] = uint64(h.rng.Uint32())
+							}
 						}
 					}
 				case "limbs3":
